@@ -294,16 +294,38 @@ pub fn cholesky(a: &[f64], d: usize) -> Vec<f64> {
 #[derive(Debug, Clone)]
 pub struct HTarget {
     pub spec: Spec,
+    /// Optional evaluation budget (rows). The library has no NUTS tree-depth cap, and warm-up can
+    /// collapse the step size by orders of magnitude, after which a single transition needs
+    /// thousands of leapfrog steps. Once the budget is used up the target returns NaN, which
+    /// makes every further tree stop after one step, so the call under test still returns. Checks
+    /// that use a budget look at `exhausted()` and restrict what they compare afterwards.
+    pub budget: Option<std::sync::Arc<std::sync::atomic::AtomicI64>>,
 }
 
 impl HTarget {
     pub fn new(spec: Spec) -> Self {
-        HTarget { spec }
+        HTarget { spec, budget: None }
+    }
+
+    pub fn with_budget(spec: Spec, rows: i64) -> Self {
+        HTarget {
+            spec,
+            budget: Some(std::sync::Arc::new(std::sync::atomic::AtomicI64::new(rows))),
+        }
+    }
+
+    pub fn exhausted(&self) -> bool {
+        self.budget.as_ref().map(|b| b.load(std::sync::atomic::Ordering::Relaxed) < 0).unwrap_or(false)
     }
 
     pub fn batch<B: Backend>(&self, x: Tensor<B, 2>) -> Tensor<B, 1> {
         let dev = B::Device::default();
         let [n, d] = x.dims();
+        if let Some(b) = &self.budget {
+            if b.fetch_sub(n as i64, std::sync::atomic::Ordering::Relaxed) - (n as i64) < 0 {
+                return x.sum_dim(1).reshape([n]).mul_scalar(f64::NAN);
+            }
+        }
         let col = |t: &Tensor<B, 2>, j: usize| -> Tensor<B, 1> { t.clone().slice([0..n, j..j + 1]).reshape([n]) };
         match &self.spec {
             Spec::Gauss { dim, mean, prec } => {
